@@ -27,7 +27,8 @@ PROBES = {"C19": ["crash_between_train_and_test_prediction", "crash_at_fit",
                   "resume_with_partial_unit", "resume_all_complete",
                   "overwrite_run", "rerun_same_process", "presplit_cv",
                   "clock_backwards_seen", "kill_not_exception",
-                  "options_changed_between_runs", "ram_store"]}
+                  "options_changed_between_runs", "ram_store", "features_reordered",
+                  "presplit_labels_interleaved"]}
 FAULT_KINDS = {"C19": ["peer_raises@k", "crash_restart", "rerun_same_process",
                        "clock_jump_fwd", "clock_jump_back"]}
 RULE = {"C19": (
@@ -63,7 +64,7 @@ def generate(prop, rng, tier):
         datasets.append({
             "name": "ds%d" % d, "n": n, "cols": rng.choice([1, 1, 2, 3]),
             "len": rng.randint(3, 6),
-            "source": "uea" if cvt.startswith("presplit") else rng.choice(["ram", "ram", "uea"]) if kind == "tsc" else "ram",
+            "source": rng.choice(["uea", "uea", "ram_presplit"]) if cvt.startswith("presplit") else rng.choice(["ram", "ram", "uea"]) if kind == "tsc" else "ram",
             "n_train": rng.randint(2, n - 2),
             "classes": rng.choice([2, 3])})
     if cvt == "kfold":
@@ -86,8 +87,13 @@ def generate(prop, rng, tier):
         cv["k"] = 2
     strategies = ["s%s" % "abc"[i] for i in range(n_st)]
     features = None
-    if rng.random() < 0.3:
+    r = rng.random()
+    if r < 0.25:
         features = "first"  # explicit feature subset: only the first column
+    elif r < 0.45:
+        features = "reversed"  # explicit features, in another order than the data's columns
+        for ds in datasets:
+            ds["cols"] = max(ds["cols"], 2)
     n_runs = rng.randint(1, 4 if big else 3)
     runs = []
     for i in range(n_runs + 1):
@@ -239,6 +245,19 @@ class World:
         for ds in self.scen["datasets"]:
             if ds["source"] == "uea":
                 out.append(UEADataset(path=self.data_dir, name=ds["name"]))
+            elif ds["source"] == "ram_presplit":
+                # hand-built pre-split data: the 'train' / 'test' labels are interleaved
+                rows = self.raw[ds["name"]]
+                nt = ds["n_train"]
+                lab = ["test"] * len(rows)
+                step = max(1, len(rows) // nt)
+                for i in list(range(0, len(rows), step))[:nt]:
+                    lab[i] = "train"
+                if lab.count("train") < 2:
+                    lab[-1] = lab[-2] = "train"
+                if lab.count("test") < 2:
+                    lab[0] = lab[1] = "test"
+                out.append(RAMDataset(_rows_to_frame(rows, index=lab), name=ds["name"]))
             else:
                 out.append(RAMDataset(_rows_to_frame(self.raw[ds["name"]]), name=ds["name"]))
         return out
@@ -246,10 +265,15 @@ class World:
     def make_tasks(self):
         from sktime.benchmarking.tasks import TSCTask, TSRTask
         T = TSCTask if self.scen["kind"] == "tsc" else TSRTask
-        feats = None
-        if self.scen["features"] == "first":
-            feats = ["dim_0"]
-        return [T(target="target", features=feats) for _ in self.scen["datasets"]]
+        out = []
+        for ds in self.scen["datasets"]:
+            feats = None
+            if self.scen["features"] == "first":
+                feats = ["dim_0"]
+            elif self.scen["features"] == "reversed":
+                feats = ["dim_%d" % c for c in reversed(range(ds["cols"]))]
+            out.append(T(target="target", features=feats))
+        return out
 
     def make_estimator(self, name):
         if self.scen["kind"] == "tsc":
@@ -312,7 +336,10 @@ class Model:
     def features(self, frame):
         if self.scen["features"] == "first":
             return ["dim_0"]
-        return [c for c in frame.columns if c != "target"]
+        cols = [c for c in frame.columns if c != "target"]
+        if self.scen["features"] == "reversed":
+            return list(reversed(cols))
+        return cols
 
     def _truth(self):
         """Expected record for every unit: clone of the estimator fitted on the
@@ -797,12 +824,16 @@ def execute(prop, scen):
         "benchmarking.tasks.%s" % ("TSCTask" if scen["kind"] == "tsc" else "TSRTask")])
     for ds in scen["datasets"]:
         res.real.add("benchmarking.data.%s" % ("UEADataset" if ds["source"] == "uea" else "RAMDataset"))
+        if ds["source"] == "ram_presplit":
+            res.probe("presplit_labels_interleaved")
     res.real.add({"kfold": "sklearn.KFold", "single": "series_as_features.model_selection.SingleSplit",
                   "presplit": "series_as_features.model_selection.PresplitFilesCV"}[scen["cv"]["type"]])
     res.stub.update(["SpyClassifier" if scen["kind"] == "tsc" else "SpyRegressor",
                      "SimClock(pd.Timestamp.now in orchestration.py)"])
     if scen["cv"]["type"] == "presplit":
         res.probe("presplit_cv")
+    if scen["features"] == "reversed":
+        res.probe("features_reordered")
     runs = scen["runs"]
     if len({json.dumps(r["opts"], sort_keys=True) for r in runs}) > 1:
         res.probe("options_changed_between_runs")
@@ -900,7 +931,7 @@ def shrink_candidates(prop, scen):
         if ds["cols"] > 1:
             d2 = dict(ds, cols=1)
             yield dict(s, datasets=s["datasets"][:i] + [d2] + s["datasets"][i + 1:])
-        if ds["source"] == "uea" and s["cv"]["type"] != "presplit":
+        if ds["source"] in ("uea", "ram_presplit") and s["cv"]["type"] != "presplit":
             d2 = dict(ds, source="ram")
             yield dict(s, datasets=s["datasets"][:i] + [d2] + s["datasets"][i + 1:])
     if s["cv"]["type"] == "kfold" and s["cv"]["k"] > 2:
